@@ -120,6 +120,15 @@ Proof. intros H. unfold bind. rewrite H. reflexivity. Qed.
 Lemma bind_ret_l {S A B} (a : A) (k : A -> M S B) s : bind (ret a) k s = k a s.
 Proof. reflexivity. Qed.
 
+Lemma loop_fuel_S {S R} (f : nat) (body : M S (option R)) (w : S) :
+  loop_fuel (Datatypes.S f) body w =
+  match body w with
+  | Val (Some v) w' => Val (Done v) w'
+  | Val None w' => loop_fuel f body w'
+  | Panic w' => Panic w'
+  end.
+Proof. cbn [loop_fuel]. unfold bind. destruct (body w) as [[v|] w'|w']; reflexivity. Qed.
+
 (* ---- for_range over a pure body: the result is the first index whose body yields Some ---- *)
 Lemma for_range_n_spec {St R} (body : Z -> M St (option R)) (f : Z -> option R) (s : St) :
   forall cnt lo, (forall i, lo <= i < lo + Z.of_nat cnt -> body i s = Val (f i) s) ->
